@@ -47,6 +47,48 @@ PROPS = {
         "assumptions": ["fingerprints compared through their recorded preimages (collision freedom of XOR-of-BLAKE3 assumed)", "range bounds lie in the replica's own namespace (get_range does not clamp foreign-namespace bounds; no listed property covers that)"],
         "modelled": "store/fs.rs StoreInstance as ranger::Store, store/fs/bounds.rs, ranger.rs process_message",
     },
+    "C13": {
+        "n": {"quick": 400, "thorough": 20000},
+        "shard_size": 50, "check_module": "Check/StoreProps.v",
+        "relation": "Check.StoreProps.check: every answer of a history of store operations (import, open/close, remove, insert/delete/remote insert, raw put, peers, policy, heads, news, content hashes, list, get_all, reopen) = Model.StoreOps.store_step",
+        "rule": "histories of 8-30 operations over 2-3 documents and 1-3 authors: entries arriving in any timestamp order (6-value window, ties), prefix deletions, document removal and re-creation, reopen; after random prefixes the triple (get_all, heads, has_news_for_us against a random head set with ties and an unknown author) is read. Non-trivial = some has_news answer was non-zero",
+        "spec_fail_text": "the heads reported by the real store are not the per-author maximum timestamp of the entries it holds, or has_news_for_us is not the number of authors with a strictly newer or unknown head",
+        "modelled": "store/fs.rs entry_put (latest-by-author), get_latest_for_each_author, has_news_for_us, remove_replica; heads.rs AuthorHeads::{insert,has_news_for}",
+    },
+    "C15": {
+        "n": {"quick": 400, "thorough": 20000},
+        "shard_size": 50, "check_module": "Check/StoreProps.v",
+        "relation": "Check.StoreProps.check: every answer of a history of store operations (import, open/close, remove, insert/delete/remote insert, raw put, peers, policy, heads, news, content hashes, list, get_all, reopen, policy matching, filter text) = Model.StoreOps.store_step",
+        "rule": "histories of 8-30 operations over 2-3 documents plus neighbouring read-only ids: set_download_policy with random policies (both kinds, 0-3 exact/prefix filters over the boundary key pool incl. empty and non-UTF-8 bytes), get_download_policy on existing and unknown documents, removal/re-import, reopen of file stores; DownloadPolicy::matches on random (policy, key); FilterKind to_string/parse round trips (incl. colons and non-UTF-8 bytes) and FromStr on well-formed and mutated filter strings. Non-trivial = a non-default policy was read back",
+        "spec_fail_text": "a policy read back differs from the last one set (or default), setting on an unknown document did not fail, matches() differs from the everything-except / nothing-except definition, or a filter did not survive its textual form",
+        "modelled": "store.rs DownloadPolicy::matches, FilterKind::{matches, Display, FromStr}; store/fs.rs set_download_policy / get_download_policy (postcard value), remove_replica",
+    },
+    "C16": {
+        "n": {"quick": 300, "thorough": 15000},
+        "shard_size": 50, "check_module": "Check/StoreProps.v",
+        "relation": "Check.StoreProps.check: every answer of a history of store operations (import, open/close, remove, insert/delete/remote insert, raw put, peers, policy, heads, news, content hashes, list, get_all, reopen) = Model.StoreOps.store_step",
+        "rule": "histories of 8-30 operations over 2-3 writable documents and read-only documents whose ids are byte-order neighbours of the first one (id+1, id-1, ..ff, ..ff+1 with carry, all-00, all-ff): entry writes, rows placed in neighbour namespaces through the unvalidated put hook, peers, policies, open/close, and removals (12%) each bracketed by two full dumps of every observable of every document (entries, heads, peers, policy, namespace list, content hashes); reopen on file stores. Non-trivial = at least one removal succeeded",
+        "spec_fail_text": "after a successful removal something of the removed document is still observable, or an observable of another document changed, or removal of an open document was not refused, or the reported content hashes are not exactly the hashes of the entries held",
+        "modelled": "store/fs.rs remove_replica, content_hashes, open_replica/close_replica, import_namespace; store/fs/bounds.rs namespace bounds",
+    },
+    "C07": {
+        "n": {"quick": 400, "thorough": 20000},
+        "shard_size": 50, "check_module": "Check/StoreProps.v",
+        "relation": "Check.StoreProps.check: every answer of a history of store operations (import, open/close, remove, insert/delete/remote insert, raw put, peers, policy, heads, news, content hashes, list, get_all, reopen) = Model.StoreOps.store_step",
+        "rule": "histories of 8-30 operations over 2-3 documents: imports of read and write capabilities in any order (20%), local inserts/deletes and remote inserts (45%), open/close, list, removal, reopen of file stores. Non-trivial = some import upgraded a read-only document",
+        "spec_fail_text": "an import outcome, a write attempt or the namespace listing contradicts the capability history (read-only replica authored an entry, a write capability was lost, or another document's capability changed)",
+        "assumptions": ["the upgrade of an already-open replica through the actor is covered by C14's model, not here"],
+        "modelled": "sync.rs Capability::merge/raw/from_raw, Replica::insert/delete_prefix (secret_key), store/fs.rs import_namespace, load_replica_info, list_namespaces",
+    },
+    "C17": {
+        "n": {"quick": 400, "thorough": 20000},
+        "shard_size": 50, "check_module": "Check/StoreProps.v",
+        "relation": "Check.StoreProps.check: every answer of a history of store operations (import, open/close, remove, insert/delete/remote insert, raw put, peers, policy, heads, news, content hashes, list, get_all, reopen) = Model.StoreOps.store_step",
+        "rule": "histories of 8-30 operations over 2-3 writable documents plus read-only documents whose ids are byte-order neighbours (..fe/..ff/carry, all-00, all-ff): peer registrations over 9 distinct peers (55%), reads of the peer list, document removal and re-import, reopen of a file store (a third of the cases are file backed); closing dump of every observable. Non-trivial = some peer list with at least 2 entries was read; distinct = distinct case terms",
+        "spec_fail_text": "a peer list read from the real store is not the first five of the distinct registrations (most recent first), or a registration for an unknown document did not fail",
+        "assumptions": ["consecutive register_useful_peer calls read strictly increasing SystemTime nanoseconds (no clock hook on this path)"],
+        "modelled": "store/fs.rs register_useful_peer, get_sync_peers, remove_replica (peer rows), import_namespace",
+    },
     "C05": {
         "n": {"quick": 120, "thorough": 1500},
         "shard_size": 40,
@@ -61,6 +103,11 @@ PROPS = {
 NOT_APPLICABLE = {}
 
 LEVEL_TEXT = {
+    "C15": "Theorems: get-after-set, set touches only the named document and requires it to exist, matches = negb exists (everything-except) / exists (nothing-except) with prefix = starts-with and exact = equality, and every filter survives print-then-parse for every notion of valid UTF-8 (hex round trip proved for all byte strings). The real store/policy/filter code is compared with the model on generated histories (set/get across removal and reopen, matches, text forms incl. malformed strings).",
+    "C13": "PARTIAL. Theorems: has_news_for counts exactly the authors with a strictly newer or unknown head; zero iff every named author is known with a timestamp at least as new. The head table (maximum timestamp per author, across removal and re-creation) and news detection of the real store are compared with the model and with an independent oracle (per-author maximum over get_all) on generated histories.",
+    "C16": "Theorems (for all 32-byte ids, incl. ids ending in 0xFF and all-0xFF): remove_replica deletes from every table exactly the rows keyed by the document (erases completely: entries, index, heads, capability, peers, policy unobservable afterwards; and only it: rows of every other document unchanged and in order); removal of an open document is refused. The real store is compared with the model operation by operation on histories over byte-order-neighbouring document ids, with full dumps of all observables around every removal and the content-hash set checked against the entries held.",
+    "C07": "Theorems: no import downgrades a stored write capability, importing the secret upgrades, imports touch only the named document, a read-only replica refuses local inserts/deletes without changing anything, entry writes never touch the capability table. The real store is compared with the model and with an oracle tracking the capability history on generated import/write/reopen histories.",
+    "C17": "Theorem: for every sequence of registrations with increasing clock readings the table-level register_useful_peer implements the bounded MRU specification lastn cap (without p ps ++ [p]) per document, keeps the table invariant, never exceeds the cap, never duplicates, and leaves every other document and table untouched; registering for an unknown document fails. The real store is compared with the model operation by operation and with an independent oracle (first five of the distinct registrations, newest first) on generated histories incl. removal, re-creation and reopen.",
     "C01": "PARTIAL proof + full correspondence. Proved for every message, store content and configuration: the store after processing a message is reduce(valid values ++ previous content) (step soundness, hence no foreign entries), equal fingerprints are answered with silence (second session), and sent/received counters mirror after any complete session. Delivery completeness and the termination bound are not yet theorems: they are checked on every generated pair of reachable states by running complete sessions on the real replicas (both initiators, memory and file stores, 11 configurations) and comparing every protocol message, both final contents (= join), the counters, the message bound and the silent second session with the model.",
     "C08": "PARTIAL proof + full correspondence. Proved: exactness of the database range bounds (namespace scan, author-prefix scan incl. 0xFF-edged keys), the store effect of a message is the same function for every store instance, the ordered-list instance holds the abstract store's set. Checked by correspondence: real session transcripts = the same algorithm over a plain ordered list, message by message; direct probes of get_range (three shapes), get_first, prefixes_of, remove_prefix_filtered against the table model and the ordered-map definitions.",
     "C05": "Theorems: every range bound a query path scans (namespace, author+key-prefix, author+exact key, by-key prefix/exact/namespace) is exact for all 32-byte ids and all byte keys (closed under the global context); the iterator model and the declarative query_spec are both compared with the real get_many/get_exact on generated states (with stale index rows) and queries over the full product of query dimensions. The equality run_query = query_spec itself is checked by the correspondence runs, not yet by a theorem (partial).",
